@@ -999,7 +999,13 @@ func (sql *SqliteDb) replayChangelog(tree *Tree, toVersion int64, targetHash []b
 			if err != nil {
 				return err
 			}
-			if _, err = tree.Set(node.key, node.hash); err != nil {
+			// while replaying, Set carries the hash of the leaf; its value (present when leaf
+			// values are stored) must be restored as well, otherwise reads of replayed keys
+			// return nothing or a stale value until the leaf is evicted and read back
+			tree.replayValue = node.value
+			_, err = tree.Set(node.key, node.hash)
+			tree.replayValue = nil
+			if err != nil {
 				return err
 			}
 			if sequence != int(tree.leafSequence) {
